@@ -136,7 +136,7 @@ theorem head_td_monotone (W : World U) (g : Blk) (archive : Bool) (hgU : U g.id 
     cases op with
     | insert chain coins =>
       have := stable_importChain W (good_stable W g th) hG' chain hop coins
-      exact this.1 (this.2 trivial)
+      exact this.1 (this.2.1 trivial)
     | setHead n => exact hop.elim
     | reopen => exact good_reopen W hG'
   obtain ⟨th', hth', hle⟩ := hstep.2.2.2.2.1
